@@ -58,13 +58,20 @@ def _cli_job(job):
             variants.append((env, cwd, None))
         if prepop:
             variants.append((dict(ENV_A), os.path.join(work, "cwd0"), "prepopulate"))
+            # leftovers of an earlier run of the same library: empty, cut short, with a tail, with one line changed
+            variants.append((dict(ENV_A), os.path.join(work, "cwd0"), "prepopulate-related"))
         for env, cwd, pre in variants:
             shutil.rmtree(outd, ignore_errors=True)
             os.makedirs(outd)
             junk = {}
             if pre and results:
-                for f in results[0]:
+                for k, f in enumerate(sorted(results[0])):
                     junk[f] = b"STALE CONTENT\n" * 200 + f.encode()
+                    if pre == "prepopulate-related":
+                        real = results[0][f]
+                        lines = real.split(b"\n")
+                        junk[f] = [b"", b"\n".join(lines[:len(lines) // 2]) + b"\n", real + b"! leftover line\n// leftover line\n",
+                                   b"\n".join(lines[:len(lines) // 2] + [b"changed"] + lines[len(lines) // 2 + 1:])][k % 4]
                 junk["zz_unrelated.txt"] = b"keep me\n"
                 junk["wrapzz_extra.c"] = b"/* extra */\n"
                 for f, b in junk.items():
